@@ -68,8 +68,8 @@ Proof. unfold Rminus, Rdiv. rewrite exp_plus, exp_Ropp. reflexivity. Qed.
 
 Ltac mp_setup :=
   repeat match goal with |- context [exp ?a] =>
-    let e := fresh "e" in let He := fresh "He" in
-    pose proof (exp_pos a) as He; set (e := exp a) in *; clearbody e end.
+    let He := fresh "He" in
+    pose proof (exp_pos a) as He; revert He; generalize (exp a); intros ? ? end.
 
 Lemma mp2_sum a b : let '(p, q) := model_probs_2 a b in p + q = 1 /\ 0 < p /\ 0 < q.
 Proof.
